@@ -12,7 +12,9 @@ CONSTANTS AtomIds, Depth
 
 AtomTable == <<JInt("0"), JInt("7"), JStr("a"), JFalse, JNull, JArr(<<>>), JObj(<<>>, <<>>), JDec("1.5"),       \* 1-8
                JInt("-3"), JInt("120"), JDec("0.0"), JDec("-0.25"), JStr("x y"), JStr("q\"t"), JStr("[1, {}]"),   \* 9-15
-               JStr("0"), JTrue, JStr("It's"), JInt("12345678901234567890"), JStr("null")>>                  \* 16-20
+               JStr("0"), JTrue, JStr("It's"), JInt("12345678901234567890"), JStr("null"),                   \* 16-20
+               \* integers that a double cannot hold (numerals are texts: TLC integers are 32 bit)
+               JInt("9007199254740993"), JInt("-9007199254740993"), JInt("18446744073709551617")>>        \* 21-23
 K1 == "k"
 K2 == "m n"
 A0 == {AtomTable[i] : i \in AtomIds}
